@@ -394,6 +394,18 @@ def run_cases(prop, ctx, cases, soft_deadline, case_timeout=60):
             prop.check(case, ctx)
         except CutFailed:
             pass
+        except (KeyboardInterrupt, SystemExit, MemoryError):
+            raise
+        except Exception as e:
+            # the oracle itself tripped (typically over a malformed object handed back by the code under test):
+            # neither "held" nor "violated" for this case; the other cases still run
+            signal.setitimer(signal.ITIMER_REAL, 0)
+            ctx.oracle_errors = getattr(ctx, "oracle_errors", 0) + 1
+            if ctx.oracle_errors <= 3:
+                import traceback
+                tb = traceback.extract_tb(e.__traceback__)[-1]
+                ctx.inconclusive.append("case %d: oracle error %s: %s at %s:%d" % (
+                    idx, type(e).__name__, str(e)[:160], tb.filename.rsplit("/", 1)[-1], tb.lineno))
         except CaseTimeout:
             signal.setitimer(signal.ITIMER_REAL, 0)
             # bounded-progress decision: re-run this one case under a line-event budget
